@@ -23,6 +23,7 @@ COMMON_TRUST = ('Trusted: Verus/Z3/rustc; the extractor/assembler (round-trip ch
 PLAN = {
     'C01': {
         'bounded': ['phonetic_api', 'fixed_api', 'fixed_rules', 'user_files', 'suffix_forms'], 'static': ['context_glue'], 'kani': ['k_keycode_to_char'],
+        'data': ['tables'],
         'level': 'proof', 'safety': True,
         'units': ['fixed_pkv_common', 'fixed_reph', 'fixed_session', 'layout', 'layout_get', 'rank', 'util', 'phon', 'pmeth', 'data', 'split'],
         'technique': 'Verus built-in safety obligations (unwrap/index/slice/overflow/termination) on extracted real functions under data-structure invariants',
@@ -70,7 +71,7 @@ PLAN = {
         'note': COMMON_TRUST + 'Equality with a new context is at the level of the abstract state (buffer, raw keys, waiting sign; memo transparent by C05).',
     },
     'C07': {
-        'bounded': ['phonetic_api', 'history_independence'],
+        'bounded': ['phonetic_api', 'history_independence'], 'data': ['tables'],
         'level': 'proof',
         'units': ['rank', 'util', 'phon'],
         'technique': 'Verus: Rank::cmp == rank_cmp (class, number); assembly postcondition of suggest; push_checked duplicate-freedom at ranked-value level',
@@ -134,7 +135,7 @@ PLAN = {
         'note': COMMON_TRUST + 'The word-level equivalence with Unicode-order typing is proved only for the single-consonant syllable lemma so far (bounded: fixed_rules compares typewriter-order and Unicode-order typing of syllable words); the ra + zo-fola defect found this way is repaired in /repo (known_findings.json).',
     },
     'C15': {
-        'bounded': ['fixed_api'],
+        'bounded': ['fixed_api'], 'data': ['tables'],
         'level': 'proof',
         'units': ['fixed_session'],
         'technique': 'Verus: functional postcondition list == fx_list(text, raw keys, options, data) for create_dictionary_suggestion, with lemma 1 <= len <= 9',
@@ -142,7 +143,7 @@ PLAN = {
         'note': COMMON_TRUST + 'search_dictionary (regex) is T2: assumed contract fx_dict (that its candidates are prefix completions, carry 10 x their edit distance and do not repeat non-adjacently is checked by the bounded check fixed_api with an independent oracle); ordering rests on one axiom about std sort_unstable (sorted permutation w.r.t. the proved comparator key; nothing assumed about ties) + data preconditions (distance <= 25, at most nine emoji per Bengali name).',
     },
     'C16': {
-        'bounded': ['ansi', 'fixed_api', 'phonetic_api'],
+        'bounded': ['ansi', 'fixed_api', 'phonetic_api', 'update_engine'],
         'level': 'proof',
         'units': ['rank', 'fixed_session', 'phon', 'pmeth'],
         'technique': 'Verus: ANSI clauses of the list functions, get_pre_edit_text == bijoy(candidate) / candidate, option getter',
